@@ -134,9 +134,9 @@ func dualNontrivial(script []string, nl, nr int, tailFirst string) bool {
 	return false
 }
 
-const dualRule = "distinct source elements xs[i]=8i+r (len 0..8) behind an instrumented source (pull counter per index, fuel); script over {L.HasNext, L.HasNext x2, L.Next, R.HasNext, R.HasNext x2, R.Next}, " +
+const dualRule = "distinct source elements xs[i]=8i+r (len 0..8, a value identifies its source index) behind an instrumented, protocol-abiding source (delivery counter per index, fuel); script over {L.HasNext, L.HasNext x2, L.Next, R.HasNext, R.HasNext x2, R.Next}, " +
 	"drawn either freely or as bursts (one side runs 1..4 elements ahead, then the roles flip), followed by a canonical drain of both sides (order drawn) and Next past the end on both; " +
-	"oracle: each side delivers its reference (computed on slices) in order, HasNext = reference not exhausted on every call, no source index delivered twice, all delivered exactly once when both sides are drained; " +
+	"oracle: each side delivers its reference (computed on slices) in order, HasNext = reference not exhausted on every call, Next on an exhausted side panics, the source never delivers an index twice and has delivered every index exactly once when both sides are drained; " +
 	"non-trivial iff the script switches sides while one side has delivered >= 2 more elements than the other; distinct by printed input and script"
 
 func runDual(rt *rapid.T, rec *kit.Rec, sig string, desc string, xs []int, mk func(src fp.Iterator[int]) (fp.Iterator[int], fp.Iterator[int]), refL, refR []int) {
